@@ -109,4 +109,22 @@ var props = map[string]*Prop{
 			{Name: "add-get-histories", Pkg: "pkg/storage/pebbledb", Test: "TestVerifC18AddGet", Shards: sh(8, 8), TimeoutS: sh(900, 3600)},
 		},
 	},
+	"C11": {
+		Level: "model_checking",
+		Rule: "stateless exploration of the real stores under a controlled scheduler: store.go/json_store.go are rebuilt (overlay, derived from the working tree) against shims of sync and pebble whose acquisitions and database operations are scheduling points; 30 scenarios (1 reader x 1 writer for 4 scan calls x 5 writers; 1 reader x 2 writers; 2 readers x 1 writer) over writers that flip a signature between versions with different hashes, delete and re-add it, rebuild indexes, change threshold/tolerance, mark false positives; all interleavings with <=2/<=1 preemptions (quick), unbounded for 1x1 and <=3 otherwise (thorough). Oracle: each reader result equals the same call run ALONE on a fresh store frozen in one committed state that existed during the call (states captured after every commit). states = distinct reader outcomes, transitions = decision points, traces = executions (each is an implementation run). Non-trivial = scenario with >= 2 distinct reader outcomes.",
+		Assumptions: []string{"Pebble is linearizable per call and its snapshots/iterators are isolated (trusted, not explored inside)", "data races are invisible to a cooperative scheduler: a separate free-running -race unit runs the same bodies (sampling, reported as such)", "Go's RWMutex writer preference is not modelled (more behaviours are allowed, none is lost)"},
+		Bounds:      map[string]string{"quick": "preemption bound 2 (1x1) / 1 (others)", "thorough": "unbounded (1x1) / preemption bound 3 (others), cap 400000 executions per scenario"},
+		Units: []Unit{
+			{Name: "pebble-interleavings", Pkg: "pkg/storage/pebbledb", Test: "TestVerifC11", Tags: []string{"verif_sched"}, Shards: sh(16, 16), GoMaxProcs: 2, TimeoutS: sh(900, 3600), DeadlineS: sh(300, 2400),
+				Profile: ovgen.Profile{Imports: []ovgen.ImportRewrite{
+					{File: "pkg/storage/pebbledb/store.go", Map: map[string]string{"sync": ovgen.ShimBase + "vsync", "github.com/cockroachdb/pebble": ovgen.ShimBase + "vpebble"}},
+				}}},
+			{Name: "json-interleavings", Pkg: "pkg/storage/jsondb", Test: "TestVerifC11JSON", Shards: sh(4, 4), GoMaxProcs: 2, TimeoutS: sh(900, 3600),
+				Profile: ovgen.Profile{Imports: []ovgen.ImportRewrite{
+					{File: "pkg/storage/jsondb/json_store.go", Map: map[string]string{"sync": ovgen.ShimBase + "vsync"}},
+				}}},
+			{Name: "pebble-race-freerunning", Pkg: "pkg/storage/pebbledb", Test: "TestVerifC11Race", Shards: sh(8, 8), Race: true, TimeoutS: sh(900, 3600)},
+			{Name: "json-race-freerunning", Pkg: "pkg/storage/jsondb", Test: "TestVerifC11JSONRace", Shards: sh(1, 2), Race: true, TimeoutS: sh(900, 3600)},
+		},
+	},
 }
